@@ -131,6 +131,13 @@ func decide(t fataler, s *graph.Scenario, plans map[int]graph.WrapPlan, tag stri
 		if _, isW := got.(*zoo.W); isW {
 			labels = append(labels, "final-version-is-wrapper")
 		}
+		// a substitution that the plan makes unconditionally (before instantiation, or a fresh wrapper after
+		// initialization) is what the container publishes - not the object it replaced
+		if pl, ok := wrap.Plan[c.Name]; ok && !plain && (pl.Inst == graph.WrapNew || pl.After == graph.WrapNew) {
+			if _, isW := got.(*zoo.W); !isW {
+				t.Fatalf("C03: %q is replaced by the post-processor (plan %v), yet the lookup returns the replaced object %T\n%s", c.Name, pl, got, desc)
+			}
+		}
 	}
 	// ... then what every holder that the container actually created and populated holds
 	created := map[string]bool{}
